@@ -96,6 +96,9 @@ def run(res):
     # pool half: slot accounting of the whole pool against the proved pool model
     pc.pool_check(res, 'C10', 100 if res.tier == 'quick' else 4000, focus={'apply': 14, 'ready': 12, 'ack': 10, 'exit': 6, 'tick': 10, 'grow': 3, 'shrink': 3, 'close': 0.6, 'feed': 5},
                   cfg=lambda rng: dict(pc.random_cfg(rng), putlocks=True))
+    # closed crash-free composition: conservation (free slots + jobs in flight = bound) is proved of it
+    pc.closed_check(res, 'C10', 120 if res.tier == 'quick' else 2000)
+    pc.real_scenarios(res, 'C10', [dict(kind='closed_system', n=2, jobs=12), dict(kind='closed_system', n=3, jobs=7, putlocks=True)] if res.tier == 'quick' else [dict(kind='closed_system', n=n, jobs=j, putlocks=pl) for n in (1, 2, 4) for j in (0, 1, 9, 40) for pl in (True, False)])
     res.assumptions += [
         'threading.Semaphore / Condition (stdlib) are modelled: a blocking acquire with value 0 is "Blocked"',
         '`with self._cond:` sections are atomic',
